@@ -56,12 +56,13 @@ def main():
     ap.add_argument('--seeded', action='store_true', help='run seeded/<id>/patch.diff instead of the catalogue')
     ap.add_argument('--all-checks', action='store_true')
     ap.add_argument('--seed', default='1')
+    ap.add_argument('--base', default='seeded', help='directory of <id>/patch.diff + meta.json (seeded, refactorings)')
     ap.add_argument('--out', default=os.path.join(VERIF, 'mutants', 'RESULTS.json'))
     args = ap.parse_args()
 
     if args.seeded:
         items = []
-        base = os.path.join(VERIF, 'seeded')
+        base = os.path.join(VERIF, args.base)
         for name in sorted(os.listdir(base)):
             meta = json.load(open(os.path.join(base, name, 'meta.json')))
             items.append({'id': name, 'property': meta['property'], 'patch': os.path.join(base, name, 'patch.diff'),
